@@ -73,7 +73,7 @@ def hop_expr1(snode: TreeNodeTensor, ttns: TTNS, ttno: TTNO, ttne: TTNEnviron, r
         return expr, hdiag
 
 
-def hop_expr2(snode: TreeNodeTensor, ttns: TTNS, ttno: TTNO, ttne: TTNEnviron):
+def hop_expr2(snode: TreeNodeTensor, ttns: TTNS, ttno: TTNO, ttne: TTNEnviron, return_hdiag=True):
     # build two-site effective hamiltonian operator as an opt_einsum expression
     sparent = snode.parent
     enode = ttne.node_list[ttns.node_idx[snode]]
@@ -113,6 +113,8 @@ def hop_expr2(snode: TreeNodeTensor, ttns: TTNS, ttno: TTNO, ttne: TTNEnviron):
     shape += shape_parent
     # cache the contraction path
     expr = _contract_expression(args, shape, input_indices, output_indices)
+    if not return_hdiag:
+        return expr
     hdiag = _get_hdiag(args, input_indices)
     return expr, hdiag
 
